@@ -256,6 +256,21 @@ def check_crash(scn, seed, point, downtime):
                     findings.append({"property": PROP, "rule": "history-differs-from-record-after-restart", "witness": want,
                                      "detail": "%s: %s ended %s but the history has no %s event (%s)" % (
                                          ctx, arn, last["status"], want, types[-4:])})
+                # every state that left its trace on exit left one on entry (a redelivered event may repeat an entry)
+                ent, exi = {}, {}
+                for e in hev:
+                    t_ = e.get("type") or ""
+                    nm = ((e.get("stateEnteredEventDetails") or e.get("stateExitedEventDetails") or {}).get("name"))
+                    if t_.endswith("StateEntered"):
+                        ent[nm] = ent.get(nm, 0) + 1
+                    elif t_.endswith("StateExited"):
+                        exi[nm] = exi.get(nm, 0) + 1
+                for nm, k_ in sorted(exi.items(), key=lambda kv: str(kv[0])):
+                    if ent.get(nm, 0) == 0:
+                        findings.append({"property": PROP, "rule": "history-differs-from-record-after-restart",
+                                         "witness": "exited-without-entered",
+                                         "detail": "%s: %s history has StateExited for %r and no StateEntered" % (ctx, arn, nm)})
+                        break
                 if types[0] != "ExecutionStarted":
                     findings.append({"property": PROP, "rule": "history-differs-from-record-after-restart",
                                      "witness": "first-event", "detail": "%s: %s history starts with %s" % (ctx, arn, types[0])})
